@@ -24,6 +24,7 @@ var (
 	flagList     = flag.Bool("list", false, "list properties and rules")
 	flagReplay   = flag.String("replay", "", "re-run the rule of a replay file and tell whether the construct is still reported")
 	flagExport   = flag.Bool("export-props", false, "print the property table as JSON (used by gen_manifest.py)")
+	flagGenWire  = flag.Bool("gen-wire", false, "print a candidate wire spec (format6.json) for the tree at -repo")
 	flagMutants  = flag.Bool("mutants", false, "run the mutant self-tests for -property (or all) and exit")
 )
 
@@ -54,6 +55,13 @@ func run() (code int) {
 			out[id] = map[string]any{"rules": pr.Rules, "decided": pr.Decided, "not_decided": pr.NotDecided}
 		}
 		b, _ := jsonMarshal(out)
+		fmt.Println(string(b))
+		return 0
+	}
+	if *flagGenWire {
+		p := Load(*flagRepo, false)
+		spec := genWireSpec(p)
+		b, _ := jsonMarshalIndent(spec)
 		fmt.Println(string(b))
 		return 0
 	}
